@@ -42,6 +42,13 @@ func (p *NoOpPacer) AddStream(ssrc uint32, writer interceptor.RTPWriter) {
 	p.ssrcToWriter[ssrc] = writer
 }
 
+// RemoveStream removes a stream and its writer from the p.
+func (p *NoOpPacer) RemoveStream(ssrc uint32) {
+	p.lock.Lock()
+	defer p.lock.Unlock()
+	delete(p.ssrcToWriter, ssrc)
+}
+
 // Write sends a packet with header and payload to a previously added stream.
 func (p *NoOpPacer) Write(header *rtp.Header, payload []byte, attributes interceptor.Attributes) (int, error) {
 	p.lock.Lock()
